@@ -533,7 +533,9 @@ def gen_string_body(rng, json_only=True):
         elif r < 0.93:
             out.append('\\u%04x' % rng.choice([0xd800, 0xdbff, 0xdc00, 0xdfff, rng.randint(0xd800, 0xdfff)]))
         else:
-            out.append(rng.choice(['\\\\/', '\\\\u0041', '\\\\\\/', '\\\\\\\\', '\\\\"'.replace('"', '\\"')]))
+            # an escaped back-slash followed by a character that would be an escape letter if the pair were read wrong
+            out.append(rng.choice(['\\\\/', '\\\\u0041', '\\\\\\/', '\\\\\\\\', '\\\\"'.replace('"', '\\"')] +
+                                  ['\\\\' + c for c in 'abfnrtvxuNU0123']))
     return ''.join(out)
 
 
@@ -788,7 +790,8 @@ def gen_cases(ctx):
         '', 'a', '\\"', '\\\\', '\\/', '\\b\\f\\n\\r\\t', '\\u0041', '\\u00e9', '\\u00E9', '\\ud83d\\ude00', '\\uD83D\\uDE00',
         '\\ud800', '\\udc00', '\\udc00\\ud800', '\\ud800x\\udc00', '\\ud800\\u0041', '\\\\/', '\\\\\\/', '\\\\ud83d\\\\ude00',
         '\u00e9\U0001f600', '/', "'", "it's", '\\u0000', '\\u001f', '\x7f', '\\u2028\\u2029', '\ufeff', '\\u005c\\u002f',
-        '\\\\u002f', 'a\\/b\\/c', '<\\/script>')] + [
+        '\\\\u002f', 'a\\/b\\/c', '<\\/script>', 'C:\\\\apps\\\\new\\\\table', '\\\\alpha', '\\\\N{DASH}', '\\\\U0001F600', '\\\\x41',
+        '\\\\101', '\\\\\\\\a', 'a\\\\', '\\\\\\\\\\\\n')] + [
         ('str', '\ufeffabc'), ('str', '\ufffehello'), ('str', '\\ufeffx'), ('str', '\\ufffe'), ('str', 'a\ufeff'),
         ('obj', [('\ufeffk', ('num', '1')), ('\\ufffe', ('str', '\ufffe'))]),
         # many values of one kind in one program (anything a traversal accumulates per value shows here)
